@@ -296,8 +296,18 @@ CONTRACTS += [
         props=['C04', 'C08', 'C01'],
         params={'packet': PKT_VALUES},
         variants={'integer': {'params': {'self': ('rec', 'IntegerDataEncoding')},
-                              'requires': [INT_ENCODINGS]},
-                  'float': {'params': {'self': ('rec', 'FloatDataEncoding')}}},
+                              'requires': [INT_ENCODINGS],
+                              'returns': ('pval', [('IntParameter', 'int'), ('FloatParameter', 'int')]),
+                              # C08/C04 (PROVED): the raw_value attribute is the uncalibrated encoded value of the field
+                              'ensures': {'raw_is_field': (
+                                  f"implies(({INB}) and (self.byte_order != 'leastSignificantByteFirst' or self.size_in_bits % 8 == 0), "
+                                  f"{RAW} == int_decode(bits(packet.raw_data, old(packet.raw_data.pos), self.size_in_bits), "
+                                  "self.size_in_bits, self.encoding, self.byte_order))", ['__proof__'])}},
+                  'float': {'params': {'self': ('rec', 'FloatDataEncoding')},
+                            'returns': ('pval', [('FloatParameter', 'real')]),
+                            'ensures': {'raw_is_field': (
+                                f'{RAW} == float_field(self, tb(bits(packet.raw_data, old(packet.raw_data.pos), '
+                                'self.size_in_bits), ceil8(self.size_in_bits)))', ['__proof__'])}}},
         returns=('pval', ['IntParameter', 'FloatParameter']),
         requires=['self.size_in_bits >= 1', 'packet.raw_data.pos >= 0',
                   # shape invariants of the calibrators hanging off the encoding
@@ -564,6 +574,10 @@ def _size_contract(target, fixed, lookups, ref, adj, refval, fixed_truthy, consu
 
 _BIN_REF = 'ref_binary_parse(self, packet, old(packet.raw_data.pos), adj)'
 _STR_REF = 'ref_string_parse(self, packet, old(packet.raw_data.pos), adj)'
+_N = '(packet.raw_data.pos - old(packet.raw_data.pos))'
+_LEAD = 'not is_none(self.leading_length_size) and self.leading_length_size != 0'
+_W = 'len(self.termination_character)'
+_TAG = 'bits(result.raw_value, 0, self.leading_length_size)'
 
 CONTRACTS += [
     Contract(
@@ -571,7 +585,12 @@ CONTRACTS += [
         props=['C07', 'C01'],
         params={}, captures={'slope': 'int', 'intercept': 'int'},
         variants={'int': {'params': {'x': 'int'}, 'ensures': {'value': 'result == slope * x + intercept'}},
-                  'float': {'params': {'x': 'real'}, 'may_raise': {'ValueError': 'True'}}},
+                  # a float argument (a calibrated reference): slope * x + intercept over the reals, which must be a whole
+                  # number (ValueError otherwise) - the argument itself need not be one
+                  'float': {'params': {'x': 'real'},
+                            'ensures': {'value': ('toreal(result) == slope * x + intercept', ['__proof__'])},
+                            'raises': {'ValueError': ('not is_int_valued(slope * x + intercept)', ['__proof__'])},
+                            'may_raise': {'ValueError': ('True', ['__native__'])}}},
         returns='int',
         ensures={'value_exact': ('result == slope * x + intercept and float(x).is_integer() or True', ['__native__'])},
         modifies=[],
@@ -631,17 +650,44 @@ CONTRACTS += [
     Contract(
         target='xtce.encodings.StringDataEncoding.parse_value',
         props=['C07', 'C14', 'C01'],
-        params={}, native_only=PENDING,
-        requires=['packet.raw_data.pos >= 0'],
-        ensures={
-            'value': f"str(result) == {_STR_REF}[0] and cls_is(result, 'StrParameter')",
-            'raw': f'result.raw_value == {_STR_REF}[1] and type(result.raw_value) is bytes',
-            'cursor': f'packet.raw_data.pos == {_STR_REF}[2]',
-        },
-        raises={'ValueError': "outcome(ref_string_parse(self, packet, packet.raw_data.pos, adj)) == 'ValueError'",
-                'KeyError': "outcome(ref_string_parse(self, packet, packet.raw_data.pos, adj)) == 'KeyError'",
-                'UnicodeDecodeError': "outcome(ref_string_parse(self, packet, packet.raw_data.pos, adj)) == 'UnicodeDecodeError'",
-                'ComparisonError': "outcome(ref_string_parse(self, packet, packet.raw_data.pos, adj)) == 'ComparisonError'"},
+        params={'self': ('rec', 'StringDataEncoding'), 'packet': PKT_INTS},
+        returns=('pval', [('StrParameter', 'bytes')]),
+        requires=['packet.raw_data.pos >= 0',
+                  ('is_none(self.length_linear_adjuster) or (is_none(self.fixed_length) and not is_none(self.dynamic_length_reference))', ['__proof__'])],
+        ensures=dict(
+            # C07 (PROVED): the raw value is the whole buffer, RIGHT-padded with zero bits to whole bytes; the cursor
+            # advances by the computed length (the three length clauses are those of _calculate_size)
+            raw_length=(f'len(result.raw_value) == ceil8({_N})', ['__proof__']),
+            raw_value=(f'implies(old(packet.raw_data.pos) + {_N} <= 8 * len(packet.raw_data), be(result.raw_value) == '
+                       f'bits(packet.raw_data, old(packet.raw_data.pos), {_N}) * pow2((8 - {_N} % 8) % 8))', ['__proof__']),
+            nonneg=(f'{_N} >= 0', ['__proof__']),
+            **_size_contract('xtce.encodings.StringDataEncoding._calculate_size', 'fixed_length', 'discrete_lookup_length',
+                             'dynamic_length_reference', 'length_linear_adjuster', STR_REF_VALUE, True, consumer=_N),
+            # C07 (PROVED): the value is the decoded text of the entire buffer ...
+            whole=(f'implies(not ({_LEAD}) and is_none(self.termination_character), '
+                   f'result == decode(result.raw_value, self.encoding))', ['__proof__']),
+            # ... or of the part before the FIRST termination character at a character boundary ...
+            terminated=(f'implies(not ({_LEAD}) and not is_none(self.termination_character), '
+                        f'exists(lambda i: i % {_W} == 0 and i + {_W} <= len(result.raw_value) and '
+                        f'sl(result.raw_value, i, i + {_W}) == self.termination_character and '
+                        f'forall(lambda k: implies(k % {_W} == 0, sl(result.raw_value, k, k + {_W}) != self.termination_character), 0, i, '
+                        f'pattern=lambda: sl(result.raw_value, k, k + {_W})) and '
+                        f'result == decode(sl(result.raw_value, 0, i), self.encoding), 0, len(result.raw_value), '
+                        f'pattern=lambda: sl(result.raw_value, i, i + {_W})))', ['__proof__']),
+            # ... or of the part whose bit length is given by the leading size tag
+            leading=(f'implies({_LEAD}, {_TAG} % 8 == 0 and result == decode(tb(bits(result.raw_value, '
+                     f'self.leading_length_size, {_TAG}), {_TAG} // 8), self.encoding))', ['__proof__']),
+            value=(f"str(result) == {_STR_REF}[0] and cls_is(result, 'StrParameter')", ['__native__']),
+            raw=(f'result.raw_value == {_STR_REF}[1] and type(result.raw_value) is bytes', ['__native__']),
+            cursor=(f'packet.raw_data.pos == {_STR_REF}[2]', ['__native__']),
+        ),
+        raises={'ValueError': ("outcome(ref_string_parse(self, packet, packet.raw_data.pos, adj)) == 'ValueError'", ['__native__']),
+                'KeyError': ("outcome(ref_string_parse(self, packet, packet.raw_data.pos, adj)) == 'KeyError'", ['__native__']),
+                'UnicodeDecodeError': ("outcome(ref_string_parse(self, packet, packet.raw_data.pos, adj)) == 'UnicodeDecodeError'", ['__native__']),
+                'ComparisonError': ("outcome(ref_string_parse(self, packet, packet.raw_data.pos, adj)) == 'ComparisonError'", ['__native__'])},
+        may_raise={'ValueError': ('True', ['__proof__']), 'KeyError': ('True', ['__proof__']),
+                   'UnicodeDecodeError': ('True', ['__proof__']), 'ComparisonError': ('True', ['__proof__'])},
+        reveal=['bits'],
         modifies=['packet.raw_data.pos'],
         native={'gen': _gen_string, 'build': _build_string},
     ),
